@@ -112,8 +112,8 @@ def r_alpha(ctx, fqs, floor=0):
                 conv.add((s[1][1], nd.lineno))
             if s[0] == 'attr' and s[2] in ('index', 'find', 'rindex', 'rfind') and is_lit(s[1]):
                 conv.add((s[1][1], nd.lineno))      # called, or handed on as a function (map(LIT.index, ...))
-            if s[0] in ('iter', 'idx') and is_lit(s[1]):
-                conv.add((s[1][1], nd.lineno))
+            if s[0] == 'idx' and is_lit(s[1]):
+                conv.add((s[1][1], nd.lineno))      # the INDEX over the literal; iterating its letters alone converts nothing
             if is_call(s, 'builtins.enumerate', 'builtins.zip') and any(is_lit(a) for a in s[2]) and \
                     not any(a[0] == 'c' and a[1] != s[2][0][1] and is_lit(a) for a in s[2][1:]):
                 for a in s[2]:
